@@ -20,11 +20,14 @@ PER_WORLD = {'NecessityDesignated', 'NecessityNegatedUndesignated', 'Possibility
              'Necessity', 'PossibilityNegated'}
 
 
-def clause_key(logic, c, shape):
+def clause_key(logic, c, shape, over=True):
     "Stable key of an unsaturation: the shared call site where one exists, else (logic, clause, shape)."
     if c == 3 and shape in PER_WORLD:
         return 'unsaturated:missing-instance:kfde.NecessityDesignated(NodeCount.isleast/MaxWorlds)'
     if c == 4:
+        if not over:
+            # the known defect only bites once the branch has MORE worlds than projected
+            return f'unsaturated:{logic}:frame-rule-unapplied-within-world-projection'
         return 'unsaturated:frame-rule-unapplied:rules.AccessNodeRule(MaxWorlds silent stop)'
     if c == 6:
         return 'unsaturated:serial-successor-missing:rules.access.Serial(_should_apply)'
@@ -179,7 +182,8 @@ def run(args) -> int:
             lib_fail = [k for k, v in enumerate(ob['lib_node_ok']) if v is not True]
             coq_bad = bool(failing) or not cm
             lib_bad = bool(lib_fail) or ob['lib_countermodel'] is not True
-            keys = sorted({clause_key(n, c, ('frame' if c in (4, 6) else ob['shapes'][k])) for k, c in unsat})
+            over = ob.get('max_worlds') is not None and ob.get('n_worlds', 0) > ob['max_worlds']
+            keys = sorted({clause_key(n, c, ('frame' if c in (4, 6) else ob['shapes'][k]), over) for k, c in unsat})
             if not coq_bad and not lib_bad and not unsat:
                 n_cert += 1
                 continue
